@@ -43,11 +43,12 @@ def run(ctx, ck) -> None:
     if not isinstance(init, ast.FunctionDef):
         raise AnalysisError('anchor vanished: BroadcastDiagonalOperator.__init__')
     # ------------------------------------------------------------------ D1
-    raises = [p for p in function_paths(init) if p.exit == 'raise' and exception_name(p.node) == 'ValueError']
-    conds = [[(term(e), pol) for e, pol in p.conds()] for p in raises]
+    from ..terms import raise_paths
+
+    rfacts = [fs for fs, _, _ in raise_paths(init, 'ValueError')]
     param = ('var', init.args.args[1].arg)
-    pytree = any((('call', ('var', 'is_leaf'), (param,), ()), False) in c for c in conds)
-    scalar = any((('cmp', 'eq', ('attr', param, 'ndim'), ('const', '0')), True) in c for c in conds)
+    pytree = any(('truth', ('call', ('var', 'is_leaf'), (param,), ()), False) in fs for fs in rfacts)
+    scalar = any(('eq', frozenset({('attr', param, 'ndim'), ('const', '0')})) in fs for fs in rfacts)
     ck.expect('D1', pytree, init, 'pytree-valued values are refused', 'pytree-valued diagonal values are no longer refused at construction', instance='pytree values')
     ck.expect('D1', scalar, init, '0-d values are refused', 'scalar (0-d) diagonal values are no longer refused at construction', instance='scalar values')
     flow = InitFlow(world, table)
@@ -66,11 +67,8 @@ def run(ctx, ck) -> None:
     dups = table.resolve(bcast, '_normalize_axes')
     dup_ok = False
     if dups and isinstance(dups.node, ast.FunctionDef):
-        for p in function_paths(dups.node):
-            if p.exit == 'raise' and exception_name(p.node) == 'ValueError':
-                e = path_env(p)
-                d = e.get('dups')
-                dup_ok = d is not None and 'Counter' in show(d) and any(ev[0] == 'cond' and ev[2] and term(ev[1]) == ('var', 'dups') for ev in p.events)
+        for fs, _, _ in raise_paths(dups.node, 'ValueError'):
+            dup_ok = dup_ok or any(f[0] == 'truth' and f[2] is True and 'Counter' in show(f[1]) and ("'gt'" in repr(f[1]) or "'ge'" in repr(f[1])) for f in fs)
     ck.expect('D1', dup_ok, dups.node if dups else bcast.node, 'duplicated destination axes (after normalisation) raise', 'duplicated axes are no longer detected', instance='duplicated axes')
 
     # ------------------------------------------------------------------ D2
